@@ -18,7 +18,7 @@ NOTE = ("Trusted: pyvc VC generator + sidecar contracts/ghost executor + z3/cvc5
         "every schedule of the boxes; an obligation at every construction site of revolve/disk_revolve/"
         "periodic_disk_revolve). pyvc is itself checked on every run by a CPython cross-check (concrete "
         "execution of the iterators by the engine vs the real streams) and a model check of the spec-"
-        "function axioms, and on every thorough run by a 42-mutant self-test. "
+        "function axioms, and on every thorough run by a 44-mutant self-test. "
         "Bounded clauses hold only inside their stated box and are never counted as discharged.")
 
 VC_CLASSES = ("SingleMemory/SingleDisk/None, Multistage, TwoLevel (symbolic period) and Mixed iterators")
@@ -60,14 +60,17 @@ add("C04", "other",
     "EndForward at every EndReverse of the multi-pass classes (SingleMemory, SingleDisk copy, TwoLevel: "
     "periodic checkpoints only ever copied) are discharged VCs from the coupling invariants. " + REV)
 add("C05", "other",
-    "Proved (VC): optimal_extra_steps / optimal_steps_binomial equal the Griewank-Walther recurrence GWX "
-    "(definitional axioms) for all n, s; n_advance range/endpoint contract with termination; argmin "
-    "returns the last minimiser; get_opt_0_table entries equal the memory-only recurrence OPT0 and "
-    "revolve() builds a sequence of makespan OPT0(cm,l)+(l+1)*uf for all l, cm>=1 and all costs. "
-    "That the *streams* of Multistage/Revolve take exactly the optimum number of steps (the bridge from "
-    "n_advance's closed form to the recurrence, and from makespan to stream) is bounded: T_adv on the real "
-    "n_advance for all n<=400/3000, stream steps on the box; the recurrence itself is validated against "
-    "a Dijkstra search over all executable action sequences for n<=6/8.")
+    "Proved (VC): the Multistage stream takes exactly WADV(n, s, trajectory) forward steps - the "
+    "recurrence T(1,u)=1, T(m,u)=j+T(m-j,u-1)+T(j,u) induced by the *real* n_advance (j=n_advance(m,u)) - for "
+    "all n, all unit counts and splits, both trajectories (ghost potential over the checkpoint stack at "
+    "every loop head); optimal_extra_steps / optimal_steps_binomial equal the Griewank-Walther recurrence "
+    "GWX (definitional axioms) for all n, s; n_advance range/endpoint contract with termination; argmin "
+    "returns the last minimiser; get_opt_0_table == memory-only recurrence OPT0, revolve() makespan == "
+    "OPT0(cm,l)+(l+1)*uf, and the Revolve stream costs exactly the sum of the operation costs (all l, "
+    "cm>=1, all costs). Bounded: WADV(n,s) == n + GWX(n,s) (T_adv on the real n_advance, all n<=400/3000: "
+    "the binomial-coefficient identity behind n_advance's closed form is not an SMT-provable induction); "
+    "OPT0 in step units == GWX; the recurrence itself validated against a Dijkstra search over all "
+    "executable action sequences for n<=6/8; stream steps on the box.")
 add("C06", "other",
     "Proved (VC): mixed_step_memoization's cost equals the Maddison recurrence MIXOPT with the "
     "documented tie-breaking (well-founded recursion on n), optimal_steps_mixed == MIXOPT, the Mixed "
@@ -119,10 +122,13 @@ add("C12", "other",
     "adjoint position, no Forward beyond the adjoint position, at most one step of dependencies (all "
     "kept for SingleMemory): discharged VCs at every yield of the " + VC_CLASSES + ". " + REV)
 add("C13", "other",
-    "Proved (VC, symbolic period): the forward sweep emits exactly Forward(k*period,(k+1)*period, "
-    "restart checkpoint to DISK), extra checkpoints go only to the binomial storage, at most "
-    "binomial_snapshots of them, periodic checkpoints are only copied. The per-block step count == "
-    "binomial optimum is bounded (period 1..9, b<=4, both storages/trajectories, N<=40/120, 3 passes).")
+    "Proved (VC, symbolic period, every pass): the forward sweep emits exactly Forward(k*period,"
+    "(k+1)*period, restart checkpoint to DISK); extra checkpoints go only to the binomial storage, at "
+    "most binomial_snapshots of them; periodic checkpoints are only copied; every period block of length "
+    "L is recomputed with exactly WADV(L, binomial_snapshots+1, trajectory) forward steps, the recurrence "
+    "induced by the real n_advance (per-block ghost potential, asserted at the Reverse that completes the "
+    "block). Bounded: WADV == the binomial optimum (T_adv on the real n_advance for n<=400/3000), and the "
+    "box period 1..9, b<=4, both storages/trajectories, N<=40/120, 3 passes.")
 add("C14", "other",
     "Proved (VC): the unit total depends on ram+disk only, at most the declared number of units is "
     "labelled RAM (CNT lemmas), every stack position keeps the storage self._storage[position] at every "
